@@ -27,7 +27,9 @@ MODEL_DEPS = {
     "tracing": ("tracing-stub", "tracing-stub"),
     "rand": ("rand-model", "rand-model"),
     "parking_lot": ("parking-lot-model", "pl-model"),
+    "bytes": ("bytes-model", "bytes-model"),
 }
+MODEL_FEATURES = {"bytes": ["serde"]}
 
 
 class Inconclusive(Exception):
@@ -93,7 +95,9 @@ def module_path_for(src_rel):
 def rewrite_cargo_toml(path):
     s = open(path).read()
     for key, (pkg, d) in MODEL_DEPS.items():
-        new = f'{key} = {{ package = "{pkg}", path = "{MODELS}/{d}" }}'
+        feats = MODEL_FEATURES.get(key)
+        fstr = (", features = [" + ", ".join(f'"{x}"' for x in feats) + "]") if feats else ""
+        new = f'{key} = {{ package = "{pkg}", path = "{MODELS}/{d}"{fstr} }}'
         pat = re.compile(r"^" + re.escape(key) + r"\s*=\s*(\{[^}]*\}|\"[^\"]*\")", re.M)
         # only inside [dependencies]
         dep_start = s.index("[dependencies]")
@@ -127,6 +131,8 @@ def apply_rewrite(root, rw):
     if n == 0 or (want is not None and n != want):
         raise Inconclusive(f"anchor moved: `{rw['anchor']}` occurs {n}x in {rw['file']} (expected {want or '>=1'})")
     mode = rw.get("mode", "before")
+    rw = dict(rw)
+    rw["text"] = rw["text"].replace("@MODELS@", MODELS)
     if mode == "before":
         seg = seg.replace(rw["anchor"], rw["text"] + rw["anchor"])
     elif mode == "after":
